@@ -29,6 +29,7 @@ thread_local! {
     static LIVE: RefCell<BTreeMap<(u8, u32), i64>> = RefCell::new(BTreeMap::new());
     static DEFERRER: RefCell<Option<Deferrer>> = RefCell::new(None);
     static TVARS: RefCell<BTreeMap<(u8, u32), TKey>> = RefCell::new(BTreeMap::new());
+    static TQ: RefCell<BTreeMap<(u8, u32), Rc<Cell<char>>>> = RefCell::new(BTreeMap::new());
     static ACTORS: RefCell<HashSet<u32>> = RefCell::new(HashSet::new());
     static FWDS: RefCell<HashSet<u32>> = RefCell::new(HashSet::new());
     static PROG: RefCell<Rc<Vec<Rc<CloSpec>>>> = RefCell::new(Rc::new(Vec::new()));
@@ -650,6 +651,7 @@ fn do_act(act: &Act_, ctx: &mut Ctx<'_, '_>, fr: &mut Frame) {
             }
             let clo = make_clo(*c, fr);
             sub(&clo, 't');
+            TQ.with(|tq| tq.borrow_mut().insert((tk_code(*k), *v), clo.guard.q.clone()));
             let core = ctx.core().unwrap();
             let key = match k {
                 Tk::F => TKey::F(at!(at(*t), [core], |s| run_plain(s, clo))),
@@ -664,6 +666,7 @@ fn do_act(act: &Act_, ctx: &mut Ctx<'_, '_>, fr: &mut Frame) {
             }
             let clo = make_clo(*c, fr);
             sub(&clo, 't');
+            TQ.with(|tq| tq.borrow_mut().insert((0, *v), clo.guard.q.clone()));
             let core = ctx.core().unwrap();
             let key = after!(Duration::from_millis((*d).max(0) as u64), [core], |s| run_plain(
                 s, clo
@@ -686,6 +689,7 @@ fn do_act(act: &Act_, ctx: &mut Ctx<'_, '_>, fr: &mut Frame) {
                     let before = core.timer_max_active(key);
                     if !before {
                         sub(&clo, 't');
+                        TQ.with(|tq| tq.borrow_mut().insert((1, *v), clo.guard.q.clone()));
                     }
                     timer_max!(&mut key, at(*t), [core], |s| run_plain(s, clo));
                     TVARS.with(|tv| tv.borrow_mut().insert((1, *v), TKey::X(key)));
@@ -698,6 +702,7 @@ fn do_act(act: &Act_, ctx: &mut Ctx<'_, '_>, fr: &mut Frame) {
                     let before = core.timer_min_active(key);
                     if !before {
                         sub(&clo, 't');
+                        TQ.with(|tq| tq.borrow_mut().insert((2, *v), clo.guard.q.clone()));
                     }
                     timer_min!(&mut key, at(*t), [core], |s| run_plain(s, clo));
                     TVARS.with(|tv| tv.borrow_mut().insert((2, *v), TKey::N(key)));
@@ -724,6 +729,9 @@ fn do_act(act: &Act_, ctx: &mut Ctx<'_, '_>, fr: &mut Frame) {
             }
             let core = ctx.core().unwrap();
             let old = TVARS.with(|tv| tv.borrow().get(&(tk_code(*k), *v)).copied());
+            // a deleted timer's closure is dropped as one that sits in no queue any more
+            let qc = TQ.with(|tq| tq.borrow().get(&(tk_code(*k), *v)).cloned());
+            let saved = qc.as_ref().map(|c| c.replace('-'));
             let b = match (k, old) {
                 (Tk::F, Some(TKey::F(key))) => core.timer_del(key),
                 (Tk::F, _) => core.timer_del(FixedTimerKey::default()),
@@ -732,6 +740,14 @@ fn do_act(act: &Act_, ctx: &mut Ctx<'_, '_>, fr: &mut Frame) {
                 (Tk::N, Some(TKey::N(key))) => core.timer_min_del(key),
                 (Tk::N, _) => core.timer_min_del(MinTimerKey::default()),
             };
+            if !b {
+                // nothing was deleted: the closure (if it still exists) keeps its tag
+                if let (Some(c), Some(v)) = (qc.as_ref(), saved) {
+                    if c.get() == '-' {
+                        c.set(v);
+                    }
+                }
+            }
             ev(format!("bool 2 {}", b as u8));
         }
         Act_::TAct(k, v) => {
@@ -1209,6 +1225,7 @@ fn new_stakker(t: i64) -> Stakker {
     let s = Stakker::new(at(t));
     DEFERRER.with(|d| *d.borrow_mut() = Some(s.deferrer()));
     TVARS.with(|tv| tv.borrow_mut().clear());
+    TQ.with(|tv| tv.borrow_mut().clear());
     s
 }
 
@@ -1345,6 +1362,7 @@ fn reset_case(prog: Rc<Vec<Rc<CloSpec>>>) {
     NUID.with(|n| n.set(1));
     LIVE.with(|l| l.borrow_mut().clear());
     TVARS.with(|l| l.borrow_mut().clear());
+    TQ.with(|l| l.borrow_mut().clear());
     ACTORS.with(|l| l.borrow_mut().clear());
     FWDS.with(|l| l.borrow_mut().clear());
     PROG.with(|p| *p.borrow_mut() = prog);
